@@ -375,7 +375,7 @@ def get_first_body_node_loc(body):
     if not body:
         return None
 
-    if type(body[0]) in (FunctionDef, ClassDef) and body[0].decorator_list:  # type: ignore[attr-defined]
+    if type(body[0]).__name__ in ('FunctionDef', 'AsyncFunctionDef', 'ClassDef') and body[0].decorator_list:  # type: ignore[attr-defined]
         return body[0].decorator_list[0].lineno, body[0].col_offset  # type: ignore[attr-defined]
 
     for n in body:
